@@ -14,7 +14,7 @@ REQ = ("From Coq Require Import List NArith.\nFrom Delb.Base Require Import PySt
        "From Delb.XPath Require Import Ast AstEnc Nav Eval Ref Subset Run.\n")
 
 EXN = ["XPathEvaluationError", "AttributeError", "AssertionError", "TypeError", "NotImplementedError", "OtherError",
-       "ValueError", "AmbiguousTreeError"]
+       "ValueError", "AmbiguousTreeError", "InvalidOperation"]
 
 
 def split_clark(key):
